@@ -83,7 +83,9 @@ func cmdSelftest(args []string) int {
 				}
 			}
 			switch {
-			case r.code == 2:
+			case r.code == 2 && hit == "":
+				// (a mutant may also make a return path dead; that is reported as a vacuity
+				// error next to the failed obligation and is not a problem of the tool)
 				fmt.Printf("SELFTEST-FAIL %s: tool error %v\n", m.Name, r.lines)
 				bad++
 			case hit == "":
